@@ -109,17 +109,26 @@ class Env:
         ctx = self.ctx
         syms = [a for a in ctx.atoms if a.kind == "sym"]
         rnd = random.Random(12345)
+        fr_b = [0.37, 0.71, 0.13, 0.93]
+        fr_u = [0.7, -1.3, 2.1, -0.4]
         for k in range(tries):
             s = z3.Solver()
             s.set("rlimit", 2_000_000)
             s.add(*ctx.constraints)
             s.add(*ctx.path)
-            for a in syms:
-                if k:
+            for j, a in enumerate(syms):
+                lo, hi = getattr(a, "bounds", (None, None))
+                if k < 2:
+                    # generic "nice" points first
+                    if lo is not None and hi is not None:
+                        val = float(lo) + (float(hi) - float(lo)) * fr_b[(k + j) % 4]
+                    else:
+                        val = fr_u[(k + j) % 4] + (0 if lo is None else max(0.0, float(lo) + 1))
+                    s.add(a.z3 == z3.RealVal(str(Fraction(val).limit_denominator(1000))))
+                else:
                     c = rnd.uniform(-3, 3)
                     s.add(a.z3 > c) if rnd.random() < 0.5 else s.add(a.z3 < c)
-                # generic (non-special) points first
-                s.add(a.z3 != 0, a.z3 != 1)
+                    s.add(a.z3 != 0, a.z3 != 1)
             if s.check() != z3.sat:
                 continue
             m = s.model()
